@@ -131,7 +131,12 @@ namespace Pistache::Http
         for (const auto& idlePeer : idlePeers)
         {
             ResponseWriter response(Http::Version::Http11, this, static_cast<Http::Handler*>(handler_.get()), idlePeer);
-            response.send(Http::Code::Request_Timeout).then([=](ssize_t) { removePeer(idlePeer); }, [=](std::exception_ptr) { removePeer(idlePeer); });
+            // The handler is told of every disconnection, also of those the server decides
+            auto drop = [=] {
+                handler_->onDisconnection(idlePeer);
+                removePeer(idlePeer);
+            };
+            response.send(Http::Code::Request_Timeout).then([=](ssize_t) { drop(); }, [=](std::exception_ptr) { drop(); });
         }
     }
 
